@@ -148,3 +148,55 @@ def make_backend():
     be = ldapbackend.AdminLdapBackend(None, 'dc=vf,dc=test')
     be._ldap_conn = FakeLdapAdmin()       # pylint: disable=protected-access
     return be
+
+
+# ---------------------------------------------------------------------------------------------------------
+# A second stand-in, one layer lower: the REAL treadmill.admin._ldap.Admin over REAL ldap3 connections whose
+# strategy is ldap3's own in-memory mock directory (MOCK_SYNC).  Everything of Admin (add / delete / modify /
+# search / paged_search with the lazy generator, the result bookkeeping of the connection objects,
+# _test_raise_exceptions) is the repository's and the library's code; like _connect_to_uri the connections do
+# not raise on a refused operation (raise_exceptions is left off).  With `separate_write` the write server has
+# its own connection object (write_uri deployments); both see the same directory.
+class MockDirectoryAdmin(_ldap.Admin):
+    def __init__(self, suffix='dc=vf,dc=test', separate_write=False):
+        super().__init__(None, suffix)
+        self.server = ldap3.Server('vf-mock')
+
+        def conn():
+            c = ldap3.Connection(self.server, client_strategy=ldap3.MOCK_SYNC, auto_encode=True, auto_escape=True,
+                                 return_empty_attributes=False)
+            c.bind()
+            # ldap3's mock returns an attribute only when its full description was asked for; a directory returns
+            # the subtypes too (RFC 4511 4.5.1.8: 'trait' selects 'trait;tm-limit-3' as well), which the product's
+            # option-tagged attributes (partition limits, ...) rely on
+            inner = c.strategy._execute_search          # pylint: disable=protected-access
+
+            def execute_search(request, inner=inner, c=c):
+                asked = {a.lower() for a in request['attributes']}
+                extra = set()
+                for entry in c.server.dit.values():
+                    for name in entry:
+                        if ';' in name and name.split(';')[0].lower() in asked and name.lower() not in asked:
+                            extra.add(name)
+                request['attributes'] = list(request['attributes']) + sorted(extra)
+                return inner(request)
+            c.strategy._execute_search = execute_search          # pylint: disable=protected-access
+            return c
+        self.ldap = conn()
+        self.write_ldap = conn() if separate_write else self.ldap
+        self.init()
+
+    def connect(self):
+        pass
+
+    @property
+    def store(self):
+        """Snapshot of the directory (for before/after comparisons)."""
+        return {dn: {k: [bytes(x) if isinstance(x, (bytes, bytearray)) else x for x in v] for k, v in entry.items()}
+                for dn, entry in self.server.dit.items()}
+
+
+def make_mock_backend(separate_write=False):
+    be = ldapbackend.AdminLdapBackend(None, 'dc=vf,dc=test')
+    be._ldap_conn = MockDirectoryAdmin(separate_write=separate_write)       # pylint: disable=protected-access
+    return be
